@@ -7,11 +7,16 @@ LAYOUT_INT = {'indent_width': (1, 8), 'wrap_after': (0, 80)}
 CASES = ['upper', 'lower', 'capitalize']
 
 
+def bitset(n):
+    """n independent fair bits as an int (st.integers over a range is biased towards small values: high bits rare)"""
+    return st.lists(st.booleans(), min_size=n, max_size=n).map(lambda bs: sum(1 << i for i, b in enumerate(bs) if b))
+
+
 @st.composite
 def layout_options(draw, require=None, allow=None):
     """every subset of the 11 layout options with drawn values (possibly empty = 'none')"""
     names = [n for n in LAYOUT_BOOL + list(LAYOUT_INT) if allow is None or n in allow]
-    bits = draw(st.integers(0, (1 << len(names)) - 1))
+    bits = draw(bitset(len(names)))
     opts = {}
     for i, n in enumerate(names):
         if bits >> i & 1:
@@ -28,7 +33,7 @@ def layout_options(draw, require=None, allow=None):
 @st.composite
 def targeted_options(draw):
     opts = {}
-    bits = draw(st.integers(0, 31))
+    bits = draw(bitset(5))
     if bits & 1:
         opts['strip_comments'] = True
     if bits & 2:
